@@ -249,8 +249,9 @@ Definition check_step (k : cst) (o : op) (b : obs) : option cst :=
          && (0 <=? rows) && (rows <? 65536) && (0 <=? cols) && (cols <? 65536)
       then (if (r =? row) && (c =? col) && (nr =? rows) && (nc =? cols) then Some k else None)
       else Some k
-  | Files base today i offs, ONoFiles => Some k
-  | Files base today i offs, OFiles pattern cf nfiles =>
+  | Files base today i offs mapn, ONoFiles => Some k
+  | Files base today i offs mapn, OStartErr => Some k      (* a refused START sets up nothing *)
+  | Files base today i offs mapn, OFiles pattern cf nfiles =>
       match k_last k with
       | Some (t, src) => if check_files t src offs cf nfiles then Some k else None
       | None => None
@@ -308,6 +309,6 @@ Definition wf_op (o : op) : Prop :=
   | SPrep n => n < 65536
   | EPrep n => 0 <= n
   | RcCode _ _ _ _ => True
-  | Files base today i offs => no_percent base /\ no_percent today
+  | Files base today i offs mapn => no_percent base /\ no_percent today
   end.
 
